@@ -214,10 +214,11 @@ pub fn property() -> Property {
             "Variable::slice is only called with step != 0 (its only caller guarantees that; with step 0 it does not terminate, which is outside the statement)".into(),
             "step 0 on a non-array subject may be an error or null".into(),
         ],
+        minimise: None,
         subs: vec![
             Sub::Custom(CustomSub { name: "enumerate", run: enumerate, replay: replay_enum }),
-            Sub::Bytes(BytesSub { name: "random", f: random, max_len: 40, quick: Budget { threads: 8, cases: 10_000 }, thorough: Budget { threads: 16, cases: 500_000 } }),
-            Sub::Bytes(BytesSub { name: "subjects", f: subjects, max_len: 300, quick: Budget { threads: 8, cases: 6_000 }, thorough: Budget { threads: 16, cases: 200_000 } }),
+            Sub::Bytes(BytesSub { name: "random", f: random, max_len: 40, quick: Budget { threads: 8, cases: 10_000 }, thorough: Budget { threads: 16, cases: 500_000 }, keep_unreproducible: false }),
+            Sub::Bytes(BytesSub { name: "subjects", f: subjects, max_len: 300, quick: Budget { threads: 8, cases: 6_000 }, thorough: Budget { threads: 16, cases: 200_000 }, keep_unreproducible: false }),
         ],
     }
 }
